@@ -360,7 +360,7 @@ class Parser:
 
     def parse_integer_literal(self, stream: TokenStream) -> Expression:
         value = stream.current.value
-        if value.startswith("0") and len(value) > 1:
+        if self._has_leading_zero(value):
             raise JSONPathSyntaxError("invalid integer literal", token=stream.current)
 
         # Convert to float first to handle scientific notation.
@@ -373,7 +373,7 @@ class Parser:
 
     def parse_float_literal(self, stream: TokenStream) -> Expression:
         value = stream.current.value
-        if value.startswith("0") and len(value.split(".")[0]) > 1:
+        if self._has_leading_zero(value):
             raise JSONPathSyntaxError("invalid float literal", token=stream.current)
 
         try:
@@ -382,6 +382,15 @@ class Parser:
             raise JSONPathSyntaxError(
                 "invalid float literal", token=stream.current
             ) from err
+
+    def _has_leading_zero(self, value: str) -> bool:
+        """Return `True` if the integer part of a number has a leading zero."""
+        int_part = value[1:] if value.startswith("-") else value
+        for i, ch in enumerate(int_part):
+            if ch in ".eE":
+                int_part = int_part[:i]
+                break
+        return len(int_part) > 1 and int_part.startswith("0")
 
     def parse_prefix_expression(self, stream: TokenStream) -> Expression:
         tok = stream.next_token()
